@@ -122,7 +122,7 @@ func runCase(c mach.Case) *h.Outcome {
 			o.Fail = h.Failf("phase:"+op.K, "%s: phase after the call is %v, documented %v", at, post.Phase, exp.Phase)
 			return o
 		}
-		if op.K == mach.Sig {
+		if op.K == mach.Sig || op.K == mach.SigFault {
 			// own signature over the currently staged state
 			st := e.M.StagingState()
 			if res.Sig == nil || st == nil {
